@@ -14,6 +14,10 @@ RUN = os.path.join(VERIF, '.run')
 REPLAY = os.path.join(VERIF, 'replay')
 EVID = os.path.join(VERIF, 'evidence')
 GUARD = 'DEEPROB_KIT_VERIF'
+try:
+    sys.set_int_max_str_digits(0)
+except AttributeError:
+    pass
 ALLOWED_AXIOMS = {'propext', 'Classical.choice', 'Quot.sound'}
 
 if REPO not in sys.path:
